@@ -387,3 +387,90 @@ func runC14Stack(c *Ctx) {
 	}
 	_ = types.Typ
 }
+
+// C14-USE: every place that turns a rule list (the text stored in an RM entry or in a field's
+// validNames) into rule items goes through the quote-aware splitter ValidNamesSplit. A plain
+// strings.Split on such text cuts quoted messages and patterns at their commas.
+func runC14SplitterUse(c *Ctx) {
+	p := c.P
+	c.Rule("C14-USE", "rule lists (RM entries, cached validNames) are split into items only by ValidNamesSplit, never by strings.Split", 1)
+	sp := p.Pkg("valid")
+	if sp == nil {
+		return
+	}
+	isRuleList := func(v ssa.Value) string {
+		for d := 0; d < 6 && v != nil; d++ {
+			switch x := v.(type) {
+			case *ssa.Extract:
+				if nx, ok := x.Tuple.(*ssa.Next); ok {
+					if rg, ok := nx.Iter.(*ssa.Range); ok && isNamed(rg.X.Type(), ModPath+"/valid", "RM") && x.Index == 2 {
+						return "an entry of the rule map being ranged over"
+					}
+				}
+				return ""
+			case *ssa.Call:
+				if calleeName(&x.Call) == "(valid.RM).Get" {
+					return "the result of RM.Get"
+				}
+				return ""
+			case *ssa.Lookup:
+				if isNamed(x.X.Type(), ModPath+"/valid", "RM") {
+					return "an entry of a rule map"
+				}
+				return ""
+			case *ssa.UnOp:
+				if fa, ok := x.X.(*ssa.FieldAddr); ok && fieldAddrName(fa) == "validNames" {
+					return "a field's cached rule list"
+				}
+				v = x.X
+			case *ssa.Field:
+				if fieldValName(x) == "validNames" {
+					return "a field's cached rule list"
+				}
+				return ""
+			case *ssa.Phi:
+				for _, e := range x.Edges {
+					if s := func() string { return "" }(); s != "" {
+						_ = e
+					}
+				}
+				if len(x.Edges) > 0 {
+					v = x.Edges[len(x.Edges)-1]
+				} else {
+					return ""
+				}
+			default:
+				return ""
+			}
+		}
+		return ""
+	}
+	var bad []string
+	nSplit, nOK := 0, 0
+	for _, fn := range p.Funcs {
+		if fn.Pkg != sp {
+			continue
+		}
+		for _, b := range fn.Blocks {
+			for _, ins := range b.Instrs {
+				call, ok := ins.(*ssa.Call)
+				if !ok {
+					continue
+				}
+				switch calleeName(&call.Call) {
+				case "strings.Split", "strings.SplitN", "strings.Fields", "strings.FieldsFunc", "strings.SplitAfter":
+					nSplit++
+					if what := isRuleList(call.Call.Args[0]); what != "" {
+						bad = append(bad, fmt.Sprintf("%s splits %s with %s at %s: quoted commas inside custom messages or patterns cut the rule", fnName(fn), what, calleeName(&call.Call), p.Pos(call.Pos())))
+					}
+				case "valid.ValidNamesSplit":
+					if isRuleList(call.Call.Args[0]) != "" {
+						nOK++
+					}
+				}
+			}
+		}
+	}
+	c.Sites += nSplit + nOK
+	c.Check(len(bad) == 0 && nOK >= 4, "C14-USE", "valid", "rule-lists", token.NoPos, fmt.Sprintf("%d rule lists split by ValidNamesSplit; %d other Split calls, none on a rule list", nOK, nSplit), uniqJoin(append(bad, fmt.Sprintf("%d rule-list splits through ValidNamesSplit found (expected the four walkers and the missing-key reporter)", nOK)), 3))
+}
